@@ -3,8 +3,12 @@
 #include <ftp/detail/utils.hpp>
 #include <boost/asio/ip/address.hpp>
 #include <boost/asio/ip/tcp.hpp>
+#include <ftp/detail/ascii_istream.hpp>
+#include <ftp/detail/ascii_ostream.hpp>
 #include "leaf_ext.hpp"
 #include "hexio.hpp"
+#include <cstring>
+#include <algorithm>
 
 using namespace ftp;
 using namespace ftp::detail;
@@ -22,9 +26,87 @@ static boost::asio::ip::address ip_of(const std::vector<std::string> & f, size_t
     return boost::asio::ip::make_address(t);
 }
 
+static std::vector<size_t> ints_of(const std::string & s)
+{
+    std::vector<size_t> v;
+    if (s == "-") return v;
+    std::istringstream iss(s); std::string t;
+    while (std::getline(iss, t, ',')) v.push_back(std::stoul(t));
+    return v;
+}
+
+// source with a short-read schedule and sticky end-of-file
+struct sched_source : ftp::input_stream
+{
+    std::string data; size_t pos = 0; std::vector<size_t> sched; size_t calls = 0;
+    std::size_t read(char *buf, std::size_t size) override
+    {
+        size_t k = size;
+        if (!sched.empty()) k = std::min(k, std::max<size_t>(1, sched[calls % sched.size()]));
+        calls++;
+        k = std::min(k, data.size() - pos);
+        memcpy(buf, data.data() + pos, k);
+        pos += k;
+        return k;
+    }
+};
+
+struct rec_sink : ftp::output_stream
+{
+    std::string content; std::string events;
+    void write(char *buf, std::size_t size) override
+    {
+        content.append(buf, size);
+        if (!events.empty()) events += ",";
+        events += "W:" + hex(std::string_view(buf, size));
+    }
+    void flush() override { if (!events.empty()) events += ","; events += "F"; }
+};
+
 std::string leaf_ext_run(const std::vector<std::string> & f)
 {
     const std::string & k = f.at(0);
+    if (k == "aup")
+    {
+        size_t isz = std::stoul(f.at(1));
+        std::vector<size_t> sizes = ints_of(f.at(2));
+        sched_source src; src.sched = ints_of(f.at(3)); src.data = unhex(f.at(4));
+        ascii_istream conv(src, isz);
+        std::string all, per;
+        size_t limit = 2 * src.data.size() + 2;
+        bool stopped = false;
+        for (size_t i = 0; i < limit; i++)
+        {
+            size_t n = sizes[i % sizes.size()];
+            std::vector<char> buf(n + 16, '\x5a');
+            size_t got = conv.read(buf.data(), n);
+            if (got > n) return "OVERRUN";
+            for (size_t j = n; j < n + 16; j++) if (buf[j] != '\x5a') return "OVERRUN-WRITE";
+            if (got == 0) { stopped = true; break; }
+            all.append(buf.data(), got);
+            if (!per.empty()) per += ",";
+            per += hex(std::string_view(buf.data(), got));
+        }
+        return hex(all) + " | " + (stopped ? "eof" : "NOT-STOPPED") + " " + per;
+    }
+    if (k == "adown")
+    {
+        std::vector<size_t> parts = ints_of(f.at(1));
+        std::string data = unhex(f.at(2));
+        rec_sink sink;
+        ascii_ostream conv(sink);
+        size_t pos = 0;
+        for (size_t p : parts)
+        {
+            size_t n = std::min(p, data.size() - pos);
+            std::string blk = data.substr(pos, n);
+            conv.write(blk.data(), blk.size());
+            pos += n;
+        }
+        if (pos < data.size()) { std::string blk = data.substr(pos); conv.write(blk.data(), blk.size()); }
+        conv.flush();
+        return hex(sink.content) + " | " + sink.events;
+    }
     if (k == "pasv")
     {
         reply r(227, unhex(f.at(1)));
